@@ -167,6 +167,7 @@ def run_scenario(sc, hooks=None):
     orig_consumer = G.Consumer
     G.Consumer = RecConsumer
     traps = Traps()
+    tr.traps = traps
     try:
         with traps:
             for ms in sc["members"]:
@@ -254,6 +255,12 @@ def _apply_event(tr, e):
         cl.replicas[(t, p)] = [node]
         cl.topic_partitions[t] = sorted(cl.topic_partitions[t] + [p])
         tr.emit(None, "topic_grew", topic=t, partition=p)
+    elif kind == "foreign_join":
+        cl.add_foreign_member(GROUP, e[2], [("consumer", bytes.fromhex(e[3]))])
+        tr.emit(None, "foreign_member_joined", member_id=e[2])
+    elif kind == "foreign_leave":
+        cl.remove_foreign_member(GROUP, e[2])
+        tr.emit(None, "foreign_member_left", member_id=e[2])
     elif kind == "reject_commits":
         m = tr.members["m%d" % e[2]]
         cl.faults.add(dict(api="OffsetCommit", client_id=m.name.encode(), nth=[0, 1], after=tr.w.clock.seconds(),
@@ -397,31 +404,91 @@ def _setup_member(tr, m, w, cl, emit, by_client, srv_by_corr, rng, ConsumerGroup
 
 # -- helpers for the oracles --------------------------------------------------------------------------------
 
+def _belongs(tr, obj):
+    """Name of the member an object belongs to (its group, client, broker client or partition consumer)."""
+    if obj is None:
+        return None
+    for name, m in tr.members.items():
+        if obj is m.group or obj is m.client or obj is getattr(m.group, "_heartbeat_looper", None):
+            return name
+        clients = getattr(m.client, "clients", None) or {}
+        if any(obj is b for b in clients.values()):
+            return name
+        for c in m.consumers:
+            if obj is c["obj"] or obj is getattr(c["obj"], "_commit_looper", None):
+                return name
+    return None
+
+
 def member_delayed_calls(tr, m):
-    """Delayed calls attributable to member m: (kind, dc)."""
+    """Delayed calls attributable to member m: list of (kind, dc).  Kinds: group.<method>, heartbeat_looper,
+    consumer.<method>, consumer_looper, client.<name>, closure.<name> (a function closing over something of m),
+    afkak_client_unattributed (a delayed call created in afkak/client.py or afkak/brokerclient.py that carries no
+    reference to any member: counted for every member, which can only hide a wedge, never invent one)."""
     out = []
-    consumers = set(id(c["obj"]) for c in m.consumers)
+    consumers = dict((id(c["obj"]), c["obj"]) for c in m.consumers)
     for dc in tr.w.clock.getDelayedCalls():
         f = dc.func
         owner = getattr(f, "__self__", None)
-        name = getattr(f, "__name__", "")
-        if owner is m.group:
-            out.append(("group." + name, dc))
-        elif owner is not None and id(owner) in consumers:
-            out.append(("consumer." + name, dc))
-        elif owner is getattr(m.group, "_heartbeat_looper", None):
+        name = getattr(f, "__name__", type(f).__name__)
+        if f is getattr(m.group, "_heartbeat_looper", None):
             out.append(("heartbeat_looper", dc))
-        elif owner is m.client or owner in list((m.client.clients or {}).values()):
-            out.append(("client." + name, dc))
-        else:
-            # closures created inside the member's client / broker clients
-            cl_ = getattr(f, "__closure__", None) or ()
-            for c in cl_:
-                try:
-                    v = c.cell_contents
-                except ValueError:
-                    continue
-                if v is m.client or v is m.group or id(v) in consumers or v in list((m.client.clients or {}).values()):
-                    out.append(("closure." + name, dc))
-                    break
+            continue
+        if any(f is getattr(c, "_commit_looper", None) for c in consumers.values()):
+            out.append(("consumer_looper", dc))
+            continue
+        who = _belongs(tr, f) or _belongs(tr, owner)
+        if who is not None:
+            if who != m.name:
+                continue
+            if owner is m.group:
+                out.append(("group." + name, dc))
+            elif owner is not None and id(owner) in consumers:
+                out.append(("consumer." + name, dc))
+            else:
+                out.append(("client." + name, dc))
+            continue
+        refs = set()
+        for c in (getattr(f, "__closure__", None) or ()):
+            try:
+                v = c.cell_contents
+            except ValueError:
+                continue
+            w_ = _belongs(tr, v)
+            if w_ is not None:
+                refs.add(w_)
+        if refs:
+            if m.name in refs:
+                out.append(("closure." + name, dc))
+            continue
+        code = getattr(f, "__code__", None)
+        fn = code.co_filename if code is not None else ""
+        if _afkak_client_file(fn) or _defer_later_from_afkak(owner):
+            out.append(("afkak_client_unattributed", dc))
     return out
+
+
+def _afkak_client_file(fn):
+    return fn.endswith("afkak/client.py") or fn.endswith("afkak/brokerclient.py")
+
+
+def _defer_later_from_afkak(owner):
+    """task.deferLater(reactor, delay, <function defined in afkak/client.py or brokerclient.py>): the delayed call's
+    function is Deferred.callback; the afkak function sits in the closure of the Deferred's first callback."""
+    cbs = getattr(owner, "callbacks", None)
+    if not cbs:
+        return False
+    for pair in cbs:
+        try:
+            fn = pair[0][0]
+        except Exception:
+            continue
+        for c in (getattr(fn, "__closure__", None) or ()):
+            try:
+                v = c.cell_contents
+            except ValueError:
+                continue
+            code = getattr(v, "__code__", None)
+            if code is not None and _afkak_client_file(code.co_filename):
+                return True
+    return False
